@@ -46,11 +46,18 @@ def judge(run, sc, r, concurrent):
                     % (r.get("err"), sc["emitted"], sc["reg"]), rp)
     got = [dict(kind=d["kind"], meta=d["meta"], i=d["i"]) for d in r["delivered"] or []]
     if got != sc["_expected"]:
-        run.diverge(tag + " dispatch-sequence", "dispatched %s, expected %s (emitted %s, registered %s)"
-                    % (got, sc["_expected"], sc["emitted"], sc["reg"]), rp)
+        var = ""
+        if any(e.get("typed") for e in sc["emitted"]) and [dict(g, meta=True) if False else g for g in got] != sc["_expected"]:
+            # does the difference vanish when _meta presence is ignored?  then it is the typed-_meta variant
+            if [(g["kind"], g["i"]) for g in got] == [(g["kind"], g["i"]) for g in sc["_expected"]]:
+                var = " variant=typed-meta-lost"
+        if not var and any(e.get("size", 0) >= 65536 for e in sc["emitted"]):
+            var = " variant=large-payload"
+        run.diverge(tag + " dispatch-sequence" + var, "dispatched %s, expected %s (emitted %s, registered %s)"
+                    % (got, sc["_expected"], [dict(e, size=e.get("size")) for e in sc["emitted"]], sc["reg"]), rp)
     for d in r["delivered"] or []:
         if not d["intact"]:
-            run.diverge(tag + " params-not-intact kind=%s" % d["kind"], "notification %s arrived altered: %s" % (d, d.get("detail")), rp)
+            run.diverge(tag + " params-not-intact kind=%s" % d["kind"], "notification %s arrived altered: %s" % (d, (d.get("detail") or "")[:300]), rp)
         if d["after_return"]:
             run.diverge(tag + " dispatched-after-return", "notification %s was dispatched after CallTool returned" % d, rp)
     ids = r.get("wire_ids") or []
@@ -83,6 +90,12 @@ def run(tier, replay=None):
         raise common.Broken("self-test: two id generators should violate EventIdsDistinct")
     run_.add_tlc(b)
     scs = scenarios(r.graph)
+    # concretisation of the emission classes: payload size (across the 64 KiB line and 1 MiB marks) and the Go type of _meta
+    for sc in scs:
+        for e in sc["emitted"]:
+            x = rnd.random()
+            e["size"] = 0 if x < 0.75 else (70000 if x < 0.93 else 1100000)
+            e["typed"] = bool(e["meta"] and rnd.random() < 0.5)
     byid = {s["id"]: s for s in scs}
     strip = lambda s: {k: v for k, v in s.items() if not k.startswith("_")}
     groups = [[strip(s)] for s in scs]
